@@ -32,6 +32,8 @@ class Func:
 
 
 INT_TY = r"i\d+"
+PTR_TY = r"(?:%?[\w.]+|i\d+)\*+"
+ANY_TY = rf"(?:{PTR_TY}|{INT_TY})"
 VAL = r"(?:%[\w.]+|-?\d+|true|false|undef|poison|null)"
 
 
@@ -117,7 +119,25 @@ def parse_instr(s):
             raise Unsupported(s)
         flags = m.group(1).split()
         return Instr(dest, op, ty=m.group(2), a=m.group(3), b=m.group(4), flags=flags)
+    if op == "alloca":
+        m = re.match(rf"alloca\s+({INT_TY})(?:,\s*align\s+\d+)?$", s)
+        if not m:
+            raise Unsupported(s)
+        return Instr(dest, "alloca", ty=m.group(1))
+    if op == "bitcast":
+        m = re.match(rf"bitcast\s+({PTR_TY})\s+({VAL})\s+to\s+({PTR_TY})$", s)
+        if not m:
+            raise Unsupported(s)
+        return Instr(dest, "alias", a=m.group(2))
+    if op == "store":
+        m = re.match(rf"store\s+({INT_TY})\s+({VAL}),\s*({PTR_TY})\s+({VAL})(?:,\s*align\s+\d+)?$", s)
+        if not m:
+            raise Unsupported(s)
+        return Instr(None, "store", ty=m.group(1), a=m.group(2), ptr=m.group(4))
     if op == "icmp":
+        mp = re.match(rf"icmp\s+(eq|ne)\s+({PTR_TY})\s+({VAL}),\s*({VAL})$", s)
+        if mp:
+            return Instr(dest, "icmp", pred=mp.group(1), ty="i64", a=mp.group(3), b=mp.group(4))
         m = re.match(rf"icmp\s+(\w+)\s+({INT_TY})\s+({VAL}),\s*({VAL})$", s)
         if not m:
             raise Unsupported(s)
@@ -168,8 +188,10 @@ def parse_instr(s):
         if not m:
             raise Unsupported(s)
         return Instr(dest, "ovf", ty=m.group(1), signed=m.group(2) == "s", arith=m.group(3), a=m.group(5), b=m.group(7))
+    if op in ("call", "tail", "notail", "musttail") and "@llvm.lifetime." in s:
+        return Instr(None, "nop")
     if op in ("call", "tail", "notail", "musttail"):
-        m = re.match(r"(?:tail\s+|notail\s+|musttail\s+)?call\s+(?:[\w]+\s+)*?(void|i\d+|double)\s+@([\w.]+)\((.*)\)$", s)
+        m = re.match(rf"(?:tail\s+|notail\s+|musttail\s+)?call\s+(?:[\w]+\s+)*?(void|i\d+|double|{PTR_TY})\s+@([\w.]+)\((.*)\)$", s)
         if not m:
             raise Unsupported(s)
         args = []
@@ -181,6 +203,9 @@ def parse_instr(s):
         m = re.match(r"load\s+.*,\s*.*\*\s+@([\w.]+)(?:,\s*align\s+\d+)?$", s)
         if m:
             return Instr(dest, "load_global", name=m.group(1))
+        m = re.match(rf"load\s+({INT_TY}),\s*({PTR_TY})\s+(%[\w.]+)(?:,\s*align\s+\d+)?$", s)
+        if m:
+            return Instr(dest, "load", ty=m.group(1), ptr=m.group(3))
         raise Unsupported(s)
     if op == "unreachable":
         return Instr(None, "unreachable")
